@@ -2,6 +2,7 @@
   C17 — CMPP message id: specified bit layout, lossless split / compose / string form.
 -/
 import SmsVerif.Model.MsgId
+import SmsVerif.Gen.Funcs
 import SmsVerif.Props.C15
 
 namespace SmsVerif.C17
@@ -104,6 +105,58 @@ theorem C17_string_roundtrip (id : Nat) (h : id < 2 ^ 64) (h0 : id ≠ 0) : pars
 example : InRange ⟨12, 31, 23, 59, 59, 4194303, 65535⟩ := by simp [InRange]
 example : combineP ⟨12, 31, 23, 59, 59, 4194303, 65535⟩ = 12 * 2 ^ 60 + 31 * 2 ^ 55 + 23 * 2 ^ 50 + 59 * 2 ^ 44 + 59 * 2 ^ 38 + 4194303 * 2 ^ 16 + 65535 := by decide
 
+
+/-! ### the model is the source: `CombineMsgID` / `SplitMsgID` translated statement by statement
+
+  `Gen.cmpp_CombineMsgID` / `Gen.cmpp_SplitMsgID` are regenerated from `cmpp/msgid.go` on every run
+  (`go/extract/funcs.go`: straight-line unsigned arithmetic, wrap-around explicit, closed statement
+  set).  The theorems below identify them with the hand-written model for all 64-bit arguments, so
+  every C17 theorem is a theorem about the code as it stands. -/
+
+theorem and15 (x : Nat) : x &&& 15 = x % 16 := Nat.and_two_pow_sub_one_eq_mod x 4
+theorem and31 (x : Nat) : x &&& 31 = x % 32 := Nat.and_two_pow_sub_one_eq_mod x 5
+theorem and63 (x : Nat) : x &&& 63 = x % 64 := Nat.and_two_pow_sub_one_eq_mod x 6
+theorem and22 (x : Nat) : x &&& 4194303 = x % 2 ^ 22 := Nat.and_two_pow_sub_one_eq_mod x 22
+theorem and16 (x : Nat) : x &&& 65535 = x % 2 ^ 16 := Nat.and_two_pow_sub_one_eq_mod x 16
+
+/-- per-run obligation: both functions are inside the translated fragment, and the format string
+    shared by printer and scanner is the one the model's `format` / `parse` transcribe -/
+theorem C17_translated : Gen.funcsUnsupported = [] ∧ Gen.msgIDFormat = "%02d%02d%02d%02d%02d%07d%05d" := by
+  decide
+
+/-- **`CombineMsgID` is `combine`** for every uint64 argument -/
+theorem C17_combine_is_source (m d h mi s g q : Nat) (hm : m < 2 ^ 64) :
+    Gen.cmpp_CombineMsgID m d h mi s g q = combine m d h mi s g q := by
+  simp only [Gen.cmpp_CombineMsgID, combine, W, Nat.shiftLeft_eq]
+  omega
+
+/-- **`SplitMsgID` is `split`** -/
+theorem C17_split_is_source (id : Nat) :
+    Gen.cmpp_SplitMsgID id =
+      ((split id).month, (split id).day, (split id).hour, (split id).minute, (split id).second,
+       (split id).gate, (split id).seq) := by
+  simp only [Gen.cmpp_SplitMsgID, split, Nat.shiftRight_eq_div_pow, and15, and31, and63, and22, and16]
+
+/-- **split ∘ combine on the source functions**: in-range fields come back -/
+theorem C17_source_split_combine (p : Parts) (h : InRange p) :
+    Gen.cmpp_SplitMsgID (Gen.cmpp_CombineMsgID p.month p.day p.hour p.minute p.second p.gate p.seq)
+      = (p.month, p.day, p.hour, p.minute, p.second, p.gate, p.seq) := by
+  have hm : p.month < 2 ^ 64 := by have := h.1; omega
+  rw [C17_combine_is_source _ _ _ _ _ _ _ hm, C17_split_is_source]
+  have := C17_split_combine p h
+  simp only [combineP] at this
+  rw [this]
+
+/-- **combine ∘ split on the source functions**: the identity on all 2^64 ids -/
+theorem C17_source_combine_split (id : Nat) (h : id < 2 ^ 64) :
+    (match Gen.cmpp_SplitMsgID id with
+     | (m, d, hh, mi, s, g, q) => Gen.cmpp_CombineMsgID m d hh mi s g q) = id := by
+  rw [C17_split_is_source]
+  simp only
+  have hr := C17_split_in_range id
+  rw [C17_combine_is_source _ _ _ _ _ _ _ (by have := hr.1; omega)]
+  exact C17_combine_split id h
+
 end SmsVerif.C17
 
 section
@@ -113,4 +166,9 @@ open SmsVerif.C17
 #print axioms C17_split_in_range
 #print axioms C17_combine_split
 #print axioms C17_string_roundtrip
+#print axioms C17_translated
+#print axioms C17_combine_is_source
+#print axioms C17_split_is_source
+#print axioms C17_source_split_combine
+#print axioms C17_source_combine_split
 end
